@@ -2,7 +2,7 @@
 #pragma once
 #include "interp.hpp"
 
-struct GSlot { int kind = 0; int life = L_RAW; bool keyed = false, tweaked = false; int cpu = 1; unsigned since_reset = 0; };
+struct GSlot { int kind = 0; int life = L_RAW; bool keyed = false, tweaked = false; int cpu = 1; unsigned since_reset = 0; Bytes prev_tweak; };
 
 struct Gen {
     Rng r;
@@ -73,7 +73,7 @@ struct Gen {
     void zero(int s) { emit(OP_ZERO, s); if (g[s].life != L_INIT) g[s].life = L_ZEROED; }
     void setkey(int s, unsigned size, bool tweaked = false, int rounds = 0, int mode = 1) {
         Op &o = emit(tweaked ? OP_SETTKEY : OP_SETKEY, s); o.size = size; o.a = rand_bytes(size); o.rounds = rounds; o.mode = mode;
-        if (!is_obj(g[s].kind) || g[s].life == L_INIT) { g[s].keyed = true; g[s].tweaked = tweaked; }
+        if (!is_obj(g[s].kind) || g[s].life == L_INIT) { g[s].keyed = true; g[s].tweaked = tweaked; g[s].prev_tweak.assign(kind_bs(g[s].kind), 0); }
     }
     void valid_key(int s, bool primary_only, int want_tweaked = -1) {
         int k = g[s].kind; unsigned bs = kind_bs(k);
@@ -94,6 +94,18 @@ struct Gen {
         o.a = rand_bytes(o.size);
         if (style == 0) { o.flags |= F_NULLA; o.a.clear(); }
         if (style == 1) std::fill(o.a.begin(), o.a.end(), 0);
+        Bytes &pv = g[s].prev_tweak;
+        if (style >= 2 && pv.size() == bs && r.chance(1, 3)) {
+            // a tweak related to the previous one on this object: real callers use counters and nonce||counter layouts
+            switch (r.below(5)) {
+            case 0: o.size = r.range(1, bs - 1); o.a.assign(pv.begin(), pv.begin() + o.size); break;          // a shorter prefix of it
+            case 1: o.size = bs; o.a = pv; break;                                                              // the same value again
+            case 2: o.size = bs; o.a = pv; o.a[bs - 1] = (uint8_t)(o.a[bs - 1] + 1); break;                    // counter step
+            case 3: o.size = bs; o.a = pv; for (unsigned q = bs / 2; q < bs; ++q) o.a[q] = r.byte(); break;    // same first half
+            default: o.size = bs; o.a = pv; for (unsigned q = 0; q < bs / 2; ++q) o.a[q] = r.byte(); break;    // same second half
+            }
+        }
+        if (!(o.flags & F_NULLA)) { pv = o.a; pv.resize(bs, 0); } else pv.assign(bs, 0);
     }
     void setctr(int s, int style = -1) {
         unsigned bs = kind_bs(g[s].kind);
@@ -227,7 +239,7 @@ static inline Plan gen_lifecycle(Rng rng, int nops_max, bool rich_before_cleanup
         if (q.life == L_RAW) { if (c < 85) G.init(s, G.r.below(3), 0, G.r.below(3)); else G.zero(s); continue; }
         if (q.life != L_INIT) {
             // cleaned / zeroed / failed: cleanup again, use after cleanup, re-init
-            if (c < 30) G.init(s, G.r.below(3), 0, c < 10 ? 5 : G.r.below(3));
+            if (c < 30) G.init(s, G.r.below(3), G.r.chance(1, 8) ? 1 : 0, c < 10 ? 5 : G.r.below(3));     // one in eight (re-)initialisations runs out of memory
             else if (c < 50) G.cleanup(s);
             else if (c < 55) { Op &o = G.emit(OP_CLEANUP, s); o.flags |= F_NULLOBJ; }
             else if (c < 62) G.zero(s);
@@ -309,8 +321,11 @@ static inline Plan gen_xhost(Rng rng, bool with_invalid) {
     int s = G.add_slot(kind);
     G.init(s, 1);
     int nops = 6 + G.r.below(40);
+    // "odd but accepted" sequences (C06 quantifies over all call sequences): set_tweak on a CTR object whose key was not
+    // set with set_tweaked_key returns 1 on every back end, so the outputs that follow must agree as well.
     for (int i = 0; i < nops; ++i) {
         if (with_invalid && G.r.chance(1, 12)) { G.invalid_call(s); continue; }
+        if (with_invalid && is_ctr(kind) && G.g[s].life == L_INIT && G.r.chance(1, 10)) { G.settweak(s, 2 + G.r.below(6)); continue; }
         G.free_step(s, true, 400, false);
     }
     return G.p;
@@ -444,7 +459,8 @@ static inline Plan gen_errors(Rng rng) {
     for (int i = 0; i < nops; ++i) {
         int s = G.r.below(nobj); GSlot &q = G.g[s];
         if (G.r.chance(1, 4)) { G.invalid_call(s); continue; }
-        if (is_obj(q.kind) && q.life == L_RAW) { if (G.r.chance(1, 6)) G.zero(s); else G.init(s, G.r.below(3)); continue; }
+        if (is_obj(q.kind) && q.life == L_RAW) { if (G.r.chance(1, 6)) G.zero(s); else if (G.r.chance(1, 6)) G.init(s, G.r.below(3), 1, G.r.below(5)); else G.init(s, G.r.below(3)); continue; }
+        if (is_obj(q.kind) && q.life == L_CLEANED && G.r.chance(1, 8)) { G.init(s, G.r.below(3), 1, 5); continue; }     // a re-initialisation that fails
         if (is_obj(q.kind) && q.life != L_INIT && G.r.chance(1, 2)) {
             // valid-looking call on a zeroed / cleaned-up object: must be rejected
             Op o; o.slot = s; o.place = G.rand_place(); o.flags = F_INJECTED; unsigned bs = kind_bs(q.kind);
@@ -484,7 +500,8 @@ static inline Plan gen_buffers(Rng rng) {
 
 // C11 (and the digest workloads of C12): a mixture of everything above
 static inline Plan gen_mixture(Rng rng, uint64_t run) {
-    switch (run % 8) {
+    switch (run % 9) {
+    case 8: return gen_failinit(rng, rng.s % 100000);
     case 0: return gen_stream(rng);
     case 1: return gen_tweak(rng);
     case 2: return gen_keylen(rng, rng.s % 100000);
